@@ -3,6 +3,7 @@ import dispatch as D
 import hir as H
 import paths as P
 import sym as S
+import wire as W
 from rules import arms as A
 
 EXPLANATION = (
@@ -57,7 +58,7 @@ def run(ctx):
             st = [e for e in evs if e.kind == 'call' and e.callee == setter]
             site = ctx.site(fnp)
             r.check('%s:unbounded' % fnp.split('::')[-1], len(mk) == 1 and mk[0].callee == 'crossbeam_channel::unbounded', site, built=[S.show(e.term) for e in mk])
-            r.check('%s:sender-registered' % fnp.split('::')[-1], len(st) == 1 and 'crossbeam_channel::unbounded().0' in S.show(st[0].term) and S.show(ret) == 'Ok(crossbeam_channel::unbounded().1)', site,
+            r.check('%s:sender-registered' % fnp.split('::')[-1], len(st) == 1 and 'crossbeam_channel::unbounded().0' in S.show(st[0].term) and S.show(W.canon_ret(ret)) == 'Ok(crossbeam_channel::unbounded().1)', site,
                     built=[S.show(e.term) for e in st] + [S.show(ret)], expected='tx registered with the I/O thread, rx returned')
     with ctx.rule('R13.3', "registration rides the channel's request FIFO; the I/O side stores the sender in the slot of that channel", floor=8) as r:
         H0 = 'io_loop::io_loop_handle::IoLoopHandle::'
